@@ -172,9 +172,27 @@ Spans(idx, d, q) ==
 SpanOps == {"spanor", "spanfirst", "spannear", "spannear2", "spannot", "spancontains", "spanbefore", "spancond",
             "sequence"}
 
+\* ---- nested (hierarchical) documents ------------------------------------------------
+\* Documents of a group sit next to one another inside one segment (doc.seg); the documents matching
+\* the "parents" query mark where groups start.
+SameSeg(idx, a, b) == Doc(idx, a).seg = Doc(idx, b).seg
+\* the parent of d: the nearest parent at or before d in d's segment (if any)
+ParentsUpTo(idx, P, d) == {p \in P : p <= d /\ SameSeg(idx, p, d)}
+ParentOf(idx, P, d) == CHOOSE p \in ParentsUpTo(idx, P, d) : \A x \in ParentsUpTo(idx, P, d) : x <= p
+\* the children of x: the live documents after x, in its segment, before the next parent
+ChildrenOf(idx, P, x) == {c \in Live(idx) : /\ c > x /\ SameSeg(idx, x, c)
+                                            /\ ~\E p \in P : x < p /\ p <= c /\ SameSeg(idx, x, p)}
+
 RECURSIVE Denote(_, _)
 Denote(idx, q) ==
   CASE q.op = "term" -> TermM(idx, q.f, q.t, q.b4)
+    [] q.op = "nestedparent" ->
+         LET P == DOMAIN Denote(idx, q.p)
+             kids == {d \in DOMAIN Denote(idx, q.q) : ParentsUpTo(idx, P, d) # {}}
+         IN Const({ParentOf(idx, P, d) : d \in kids}, Unit)
+    [] q.op = "nestedchildren" ->
+         LET P == DOMAIN Denote(idx, q.p)
+         IN Const(UNION {ChildrenOf(idx, P, x) : x \in DOMAIN Denote(idx, q.q)}, Unit)
     [] q.op \in SpanOps -> Const({d \in Live(idx) : Spans(idx, d, q) # {}}, Unit)
     [] q.op = "null" -> Empty
     [] q.op = "every" ->
